@@ -422,11 +422,11 @@ class State(object):
 
 
 class Limits(object):
-    max_summary_paths = 10
+    max_summary_paths = 48
     max_summary_instrs = 400
     max_paths = 60000
     max_expand_depth = 8
-    max_summary_events = 80
+    max_summary_events = 300
 
 
 class Engine(object):
@@ -437,6 +437,7 @@ class Engine(object):
         self.layout = Layout(mod.path)
         self.oracle = oracle          # svlib.cg.Oracle: classification of callees, may-throw
         self.summaries = {}
+        self.summary_tags = {}
         self.in_progress = set()
         self.field_tag = {}           # address Lin -> ('fld', k)
         self.loops = {}
@@ -590,6 +591,8 @@ class Engine(object):
         try:
             return self._walk(f, rules, collect, path_limit, depth, on_exit)
         finally:
+            if collect is not None and not rules:
+                self.summary_tags[f.name] = self.field_tag
             self.field_tag = saved_tags
 
     def _walk(self, f, rules, collect, path_limit, depth, on_exit):
@@ -624,7 +627,8 @@ class Engine(object):
                     self.stats['cut'] += 1
                     continue
                 st.visits[lb] = n + 1
-                self._havoc_loop(f, st, lb, loopbody[lb])
+                hroots = self._havoc_loop(f, st, lb, loopbody[lb])
+                self.emit(st, Ev('havoc', args=hroots, fn=f, site=(f.name, 'loop', lb)), rules, f)
                 havoc_phis = True
             else:
                 havoc_phis = False
@@ -679,11 +683,13 @@ class Engine(object):
                                 if wr or at[0] == 'alloca':
                                     roots.add(at)
         if clear_all:
+            allr = set()
             for a in list(st.mem.keys()):
                 for at, c in a[2]:
                     st.hv[at] = ('loop', f.name, hdr)
+                    allr.add(at)
             st.mem.clear()
-            return
+            return allr | roots
         for r in roots:
             st.hv[r] = ('loop', f.name, hdr)
         for addr in list(st.mem.keys()):
@@ -691,6 +697,7 @@ class Engine(object):
                 del st.mem[addr]
                 for at, c in addr[2]:
                     st.hv.setdefault(at, ('loop', f.name, hdr))
+        return roots
 
     def emit(self, st, ev, rules, f):
         if rules:
@@ -826,7 +833,31 @@ class Engine(object):
         for (t, v) in st.conds:
             if t == pos:
                 return v if pol else (not v)
-        # implied by an equality with a constant learned on the path (path-constant propagation)
+        # implied by an equality with a constant learned on the path (path-constant propagation:
+        # `if (new_size == 0) erase_all ();` followed by comparisons against new_size)
+        consts = {}
+        for (t, v) in st.conds:
+            if not v:
+                continue
+            a = single_atom(t)
+            if a is not None and a[0] == 'cmp' and a[1] == 'eq' and len(a[2][2]) == 1:
+                at, co = a[2][2][0]
+                if co in (1, -1) and (a[2][1] % co) == 0:
+                    consts[at] = L(-a[2][1] // co)
+        if consts:
+            a = single_atom(pos)
+            if a is not None and a[0] == 'cmp':
+                memo = {}
+                x = subst(a[2], lambda q: consts.get(q), memo)
+                y = subst(a[3], lambda q: consts.get(q), memo)
+                if x != a[2] or y != a[3]:
+                    r = mk_icmp(a[1], x, y)
+                    k = const_of(r)
+                    if k is None and a[1] == 'slt' and const_of(y) == 0 and x[1] >= 0 and x[2] \
+                            and all(co > 0 and at[0] == 'init' for at, co in x[2]):
+                        k = 0     # a sum of stored sizes is not negative
+                    if k is not None:
+                        return bool(k) if pol else (not bool(k))
         return None
 
     def assume(self, st, c, v):
@@ -1166,6 +1197,10 @@ class Engine(object):
             else:
                 self.assume(st, c2, v)
         self.emit(st, ev0, rules, f)
+        tags = self.summary_tags.get(ev0.callee)
+        if tags:
+            for a, k in tags.items():
+                self.field_tag[subst(a, rep, memo)] = k
         # replay events and stores in order.  Events carry their own substituted terms.
         for ev in sp.events:
             e2 = Ev(ev.kind)
